@@ -134,8 +134,22 @@ impl C14 {
         if let Some((e, z)) = edited {
             presentations.push(("edited_argument", e, Some(z)));
         }
+        let assembled: Option<LOh<u32, u64>> = guard(|| {
+            use open_hypergraphs::category::Arrow;
+            let x = to_lax(&exploded);
+            let ida = open_hypergraphs::lax::OpenHypergraph::<u32, u64>::identity(a.clone());
+            let idb = open_hypergraphs::lax::OpenHypergraph::<u32, u64>::identity(b.clone());
+            Arrow::compose(&ida, &Arrow::compose(&x, &idb)?)
+        }).ok().flatten();
         for (cls2, px, delete) in presentations {
             let mut lx = to_lax(&px);
+            if cls2 == "pending_argument" {
+                if let Some(asm) = &assembled {
+                    // (replaces the hand-made presentation by one the library's own lax composition produced)
+                    ctx.class("lax_argument_assembled_by_right_nested_composition");
+                    lx = asm.clone();
+                }
+            }
             if let Some(z) = delete {
                 ctx.class("lax_argument_edited_by_deleting_an_endpoint_of_a_pending_pair");
                 let inp0 = || json!({"optic": format!("{:?}", spec), "f": show_lax(&px), "delete_node": z});
@@ -305,6 +319,7 @@ impl Monitor for C14 {
             ("api:lax::Optic::map_arrow", 200),
             ("api:Optic::adapt", 200),
             ("class:lax_argument_with_pending_unifications", 100),
+            ("class:lax_argument_assembled_by_right_nested_composition", 100),
             ("class:lax_argument_edited_by_deleting_an_endpoint_of_a_pending_pair", 100),
             ("class:map_operations_on_a_batch_of_several", 100),
             ("api:Optic::map_operations", 200),
